@@ -3,6 +3,7 @@
 
 use std::fmt::Write;
 
+use memterm::parser_listener::ParserListener;
 use memterm::screen::Screen;
 use memterm::{charset, control, graphics, modes};
 
@@ -78,5 +79,47 @@ pub fn tables() -> String {
         let parts: Vec<String> = m.iter().map(|x| x.to_string()).collect();
         writeln!(o, "numlist DEFAULT_MODE {}", parts.join(" ")).unwrap();
     }
+    probes(&mut o);
     o
+}
+
+/// Dispatch probes: what the crate's `csi_dispatch` / `escape_dispatch` / `basic_dispatch` (default
+/// methods of `ParserListener`, src/parser_listener.rs) call for every final character, every shape
+/// of parameter list and both values of the private flag - recorded by an events-only tap.
+fn probes(o: &mut String) {
+    use crate::tap::Tap;
+    let mut tap = Tap::new(2, 2);
+    tap.events_only = true;
+    let mut run = |tap: &mut Tap, f: &mut dyn FnMut(&mut Tap)| -> (String, String) {
+        tap.out.clear();
+        crate::call::LAST_PRIVATE.with(|p| p.set(None));
+        f(tap);
+        let calls: Vec<String> = tap.out.iter().filter_map(|l| l.strip_prefix("E ").map(|x| x.to_string())).collect();
+        let pv = match crate::call::LAST_PRIVATE.with(|p| p.get()) {
+            None => "x".to_string(),
+            Some(None) => "-".to_string(),
+            Some(Some(b)) => (b as u32).to_string(),
+        };
+        (calls.join(" ; "), pv)
+    };
+    let mut finals: Vec<u32> = (0x20u32..=0x7e).collect();
+    finals.extend([0x00, 0x07, 0x0a, 0x1b, 0x7f, 0x80, 0x9b, 0xe9, 0x4e2d]);
+    let shapes: [&[u32]; 7] = [&[], &[0], &[101], &[101, 102], &[0, 0], &[101, 102, 103], &[101, 0, 103, 104]];
+    for f in &finals {
+        let ch = char::from_u32(*f).unwrap().to_string();
+        for sh in shapes {
+            for pv in [false, true] {
+                let (calls, got_pv) = run(&mut tap, &mut |t: &mut Tap| t.csi_dispatch(&ch, sh, pv));
+                let ps: Vec<String> = sh.iter().map(|x| x.to_string()).collect();
+                writeln!(o, "probe csi {} [{}] {} => {} | {}", f, ps.join(" "), pv as u32, calls, got_pv).unwrap();
+            }
+        }
+    }
+    for f in 0u32..=0xff {
+        let ch = char::from_u32(f).unwrap().to_string();
+        let (calls, _) = run(&mut tap, &mut |t: &mut Tap| t.escape_dispatch(&ch));
+        writeln!(o, "probe esc {} [] 0 => {} | x", f, calls).unwrap();
+        let (calls, _) = run(&mut tap, &mut |t: &mut Tap| t.basic_dispatch(&ch));
+        writeln!(o, "probe basic {} [] 0 => {} | x", f, calls).unwrap();
+    }
 }
